@@ -200,8 +200,8 @@ class Engine:
                 out.append((side, s2))
         return out
 
-    def raise_(self, exc, st, fault=False):
-        if fault and self.finally_depth:
+    def raise_(self, exc, st, fault=False, in_cleanup_too=False):
+        if fault and self.finally_depth and not in_cleanup_too:
             return  # faults inside the function's own clean-up are excluded (C07/C13 statements)
         if isinstance(exc, str):
             exc = ExcVal(exc)
@@ -952,6 +952,9 @@ class Engine:
         if isinstance(op, (ast.Eq, ast.NotEq)):
             r = self.eq(a, b, s)
             return Not(r) if isinstance(op, ast.NotEq) else r
+        if isinstance(a, Rec) and isinstance(b, (Rec, tuple)) or isinstance(b, Rec) and isinstance(a, tuple):
+            a = a.astuple() if isinstance(a, Rec) else a      # NamedTuple-like records order as the tuples of their fields
+            b = b.astuple() if isinstance(b, Rec) else b
         if isinstance(a, tuple) and isinstance(b, tuple):
             # lexicographic comparison of equal-length tuples
             strict = isinstance(op, (ast.Lt, ast.Gt))
